@@ -72,7 +72,6 @@ def fp_to_float(v: z3.FPNumRef) -> float:
 # --------------------------------------------------------------------------
 class SBool:
     __slots__ = ('t',)
-    __array_ufunc__ = None
 
     def __init__(self, t: z3.BoolRef) -> None:
         self.t = t
@@ -138,7 +137,6 @@ def as_bool_term(o: Any) -> z3.BoolRef:
 # --------------------------------------------------------------------------
 class SInt:
     __slots__ = ('t',)
-    __array_ufunc__ = None
 
     def __init__(self, t: Any) -> None:
         if isinstance(t, str):
